@@ -67,10 +67,22 @@ def gen(facts):
     mbody, _, _ = facts.span_after(body, r"let ec = match c\s*\{", rel)
     k1 = body.index(mbody, mm.end()) + len(mbody) + 1
     frame = _norm(body[:mm.start()] + "MATCH" + body[k1:])
-    want = ("let mut res = String::new(); for c in s.chars() { MATCH; match ec { Some(ec) => { res.write_str(ec).ok(); } "
-            "None => { res.write_char(c).ok(); } } } res")
-    if frame != want:
+    # frame: the replacement is written, otherwise (optionally) a control character is written
+    # through a \\u format, otherwise the character itself
+    fm = re.fullmatch(
+        r"let mut res = String::new\(\); for c in s\.chars\(\) \{ MATCH; match ec \{ Some\(ec\) => \{ res\.write_str\(ec\)\.ok\(\); \} "
+        r"(?:None if c\.is_control\(\) => \{ write!\(res, \"((?:\\.|[^\"\\])*)\", c as u32\)\.ok\(\); \} )?"
+        r"None => \{ res\.write_char\(c\)\.ok\(\); \} \} \} res", frame)
+    if not fm:
         raise facts.Unsupported(f"{rel}: escape_string: code around the match left the modelled shape: {frame!r}")
+    ctrl = None
+    if fm.group(1) is not None:
+        f2 = re.fullmatch(r"((?:\\.|[^{}\\])*)\{:(0?)(\d*)([xX]?)\}", fm.group(1))
+        if not f2:
+            raise facts.Unsupported(f"{rel}: escape_string: format string {fm.group(1)!r} not in subset")
+        if f2.group(2) != "0" and int(f2.group(3) or "0") > 0:
+            raise facts.Unsupported(f"{rel}: escape_string: space padding not in subset")
+        ctrl = (_unescape(facts, f2.group(1), rel), 16 if f2.group(4) else 10, int(f2.group(3) or "0"), f2.group(4) == "X")
     table = []
     default = False
     for arm in [a.strip() for a in re.sub(r"//[^\n]*", "", mbody).split("\n") if a.strip()]:
@@ -110,6 +122,13 @@ def gen(facts):
     out = facts.header("SdlEscGen", rel, l0, l1, body).replace("Open Scope Z_scope.", "Open Scope N_scope.")
     out += "(* arms of escape_string, in source order: character -> replacement text; every other character is copied *)\n"
     out += "Definition sdl_escape_table_gen : list (N * list N) :=\n  [" + ";\n   ".join(f"({c}, {_glist(r)})" for c, r in table) + "].\n\n"
+    out += "(* guarded arm `None if c.is_control() => write!(res, FORMAT, c as u32)` (absent: the character is copied) *)\n"
+    out += f"Definition sdl_escape_ctrl_gen : bool := {'true' if ctrl else 'false'}.\n"
+    cp_, cr_, cw_, cu_ = ctrl if ctrl else ([], 10, 0, False)
+    out += f"Definition sdl_escape_u_prefix_gen : list N := {_glist(cp_)}.\n"
+    out += f"Definition sdl_escape_u_radix_gen : N := {cr_}.\n"
+    out += f"Definition sdl_escape_u_width_gen : nat := {cw_}.\n"
+    out += f"Definition sdl_escape_u_upper_gen : bool := {'true' if cu_ else 'false'}.\n\n"
     out += f"(* write_description lines {d0}-{d1} sha256 {hashlib.sha256(dbody.encode()).hexdigest()[:16]} *)\n"
     out += "(* single-line form: chosen when the option is set and the text holds no [desc_single_excl_gen]; *)\n"
     out += "(* [desc_single_from_gen] is replaced by [desc_single_to_gen]; delimiter [desc_single_delim_gen] *)\n"
